@@ -112,7 +112,7 @@ func (r *R) Cap(reason string) {
 func (r *R) Violate(sig, detail string, replay any) {
 	if os.Getenv("VERIF_ONLY_OWNERSHIP") == "1" {
 		// run on behalf of C20: only memory-ownership oracles count here; the functional oracles belong to the owning property
-		if !strings.Contains(sig, ":ownership") && !strings.Contains(sig, ":tainted") && !strings.Contains(sig, ":panic") && !strings.Contains(sig, ":deadlock") {
+		if !strings.Contains(sig, ":ownership") && !strings.Contains(sig, ":tainted") && !strings.Contains(sig, ":panic") && !strings.Contains(sig, ":deadlock") && !strings.Contains(sig, ":recycled-state") {
 			return
 		}
 		if i := strings.IndexByte(sig, ':'); i > 0 {
